@@ -43,6 +43,7 @@ type zzTransport struct {
 	genReply       []byte
 	log            []string
 	closed         int
+	goodbyeFault   int // 0 ok, 1 exception envelope, 2 transport error, 3 truncated reply, 4 garbage
 }
 
 func (t *zzTransport) Send(req []byte) ([]byte, error) {
@@ -52,6 +53,16 @@ func (t *zzTransport) Send(req []byte) ([]byte, error) {
 	case "Plugin:handshake":
 		return t.handshakeReply, nil
 	case "Plugin:goodbye":
+		switch t.goodbyeFault {
+		case 1:
+			return zzEnv(3, "Plugin:goodbye", 1, []byte{0x0b, 0x00, 0x01, 0, 0, 0, 1, 'x', 0x08, 0x00, 0x02, 0, 0, 0, 6, 0x00}), nil
+		case 2:
+			return nil, errors.New("pipe closed")
+		case 3:
+			return zzEnv(2, "Plugin:goodbye", 1, []byte{0})[:5], nil
+		case 4:
+			return []byte{0xff, 0xfe, 0x01}, nil
+		}
 		return zzEnv(2, "Plugin:goodbye", 1, []byte{0}), nil
 	case "ServiceGenerator:generate":
 		return t.genReply, nil
@@ -165,7 +176,10 @@ func h16a() {
 		verifAssert(zzCountLog(t.log, "ServiceGenerator:generate") == 0, "no-generate-without-feature")
 	}
 
-	verifAssert(h.Close() == nil, "close-ok")
+	// the goodbye step itself may be faulty: the transport must be closed all the same
+	t.goodbyeFault = verifChoice(5)
+	cerr := h.Close()
+	verifAssert((cerr == nil) == (t.goodbyeFault == 0), "close-reports-goodbye-fault")
 	verifAssert(zzCountLog(t.log, "Plugin:goodbye") == 1, "exactly-one-goodbye")
 	verifAssert(t.closed == 1, "transport-closed-once")
 	h.Close()
